@@ -254,10 +254,9 @@ fn explore(ctx: &Ctx, rep: &mut Report) {
     } else {
         vec![
             ("J3/full/uniform-ws", Alphabet::full(), 3, all, false),
-            ("J3/full/single-gap-ws", Alphabet::full(), 3, &[][..], true),
+            ("J3/reduced/single-gap-ws", Alphabet::reduced(), 3, &[][..], true),
             ("J4/reduced/uniform-ws", Alphabet::reduced(), 4, all, false),
-            ("J4/reduced/single-gap-ws", Alphabet::reduced(), 4, &[][..], true),
-            ("J5/tiny/uniform-ws", Alphabet::tiny(), 5, two, false),
+            ("J5/tiny/uniform-ws", Alphabet::tiny(), 5, &[""][..], false),
         ]
     };
     for (name, alpha, n, uni, single) in plans {
